@@ -51,13 +51,13 @@ def build(args):
             dc = cio.build_chain(cz, c, order=order, rng=rng, zero_bf=zb)
             with DescriptorFormat(top, sub):
                 s = dc.to_string()
-                strings.add((top, shared.to_string()))
+                strings.add((top + " | " + sub, shared.to_string()))
                 # the same string whatever order daughters and sub-decays were given in
                 for _ in range(2):
                     o2 = order[:]
                     rng.shuffle(o2)
-                    strings.add((top, cio.build_chain(cz, c, order=o2, rng=rng, zero_bf=zb).to_string()))
-                strings.add((top, s))
+                    strings.add((top + " | " + sub, cio.build_chain(cz, c, order=o2, rng=rng, zero_bf=zb).to_string()))
+                strings.add((top + " | " + sub, s))
             ps = parse_all(s, top, sub)
             tree = tree_json(abstract_tree(cz, ps[0])) if len(ps) == 1 else {"m": "?", "leaf": True, "kids": []}
             reads.append({"pat": top + " | " + sub, "string": s, "nparses": len(ps), "tree": tree})
